@@ -10,7 +10,8 @@ from p_c02 import frow, srow, PLAIN, RED, ONBLUE, UNDER, INVERT
 
 def lines_for(w):
     # rows are at most as wide as the terminal (the statement quantifies over heights only)
-    return [r for r in _lines_for(w) if sum(len(t) for t, _ in r["v"]) <= w]
+    from p_c02 import wide_rows
+    return [r for r in _lines_for(w) if sum(len(t) for t, _ in r["v"]) <= w] + wide_rows(w)
 
 
 def _lines_for(w):
@@ -89,6 +90,16 @@ class C07(TraceCheck):
                         cp = [max(0, height - 1 - (n % 2)), 0]
                         yield {"h": h, "w": w, "hide": n % 2, "keep": (n // 2) % 2, "pre": pre,
                                "steps": [{"arr": arr, "cp": cp, "kind": "list"} for _ in range(reps)]}
+        # a row changing between double-width / combining text and narrow text with as many (or more) characters
+        for (h, w) in [(3, 6), (2, 5)]:
+            W2, ACC = frow([[[26085, 65317], RED]]), frow([[[101, 769, 120], PLAIN]])
+            AB, ABC, A = frow([[[97, 98], RED]]), frow([[[97, 98, 99], PLAIN]]), frow([[[97], PLAIN]])
+            for first, second in ((W2, AB), (AB, W2), (W2, ABC), (ABC, ACC), (ACC, ABC), (W2, ACC), (ACC, A), (W2, A)):
+                for pre in (0, 1):
+                    n += 1
+                    yield {"h": h, "w": w, "hide": n % 2, "keep": 0, "pre": pre,
+                           "steps": [{"arr": [A, first], "cp": [1, 0], "kind": "list"}, {"arr": [A, second], "cp": [1, 1], "kind": "list"},
+                                     {"arr": [first, second], "cp": [0, 0], "kind": "list"}]}
         # REPL-like growth: every render shows the previous array plus a few more lines (so earlier rows are row-cache
         # hits), the cursor stays in the same column on the last row; the window starts below existing output
         base_pool = lines_for(6)
